@@ -13,7 +13,7 @@ ID = "C18"
 LEVEL = "exploration"
 RULE = ("Cases: class in {RandomLineAccessFile, MemoryMappedRandomLineAccessFile, MapAccessFile with dict mapping, MapAccessFile with "
         "index-file mapping}; file of distinct multi-byte lines in size class small / 40 KB / 200 KB; the object is opened in the parent "
-        "(which optionally reads before forking); 1..4 forked children with programmes of 1..6 reads each, the parent optionally "
+        "(which optionally reads before forking); 1..4 forked children with programmes of 1..6 reads each (index reads; for the sequence classes also fresh iterations over the first n lines and slices), the parent optionally "
         "reading concurrently in a gated thread, optionally a grandchild forked by a child after its first read; a generated schedule "
         "grants single seek/readline steps to the processes. Oracle: every value read in every process equals the reference line (for "
         "MapAccessFile the line with its terminator), the parent's read after all children finished is correct, (whether a child's descriptor shares the parent's open file description is measured by a dup + lseek probe and reported as a label only). "
@@ -101,13 +101,34 @@ def run_case(case, ctx):
         mk = lambda: wf.MapAccessFile(path, idx)
         key = lambda i: "k%d" % i
         exp = lambda i: lines[i] + "\n"
-    res_i = lambda v: v % n
+    seq = kind in ("buffered", "mmap")   # sequence classes also offer iteration and slices
+
+    def res_i(v):
+        """programme entry -> access: an int is an index; a negative code selects an iteration / slice (sequence classes)"""
+        if isinstance(v, int) and v < 0 and seq:
+            m = -v
+            if m % 2:
+                return ["iter", 1 + (m // 2) % 6]
+            a = (m // 2) % n
+            return ["slice", a, min(n, a + 1 + (m // 7) % 4)]
+        return abs(v) % n
+
+    def key_of(a):
+        return a if isinstance(a, list) else key(a)
+
+    def exp_of(a):
+        if isinstance(a, list):
+            return lines[:a[1]] if a[0] == "iter" else lines[a[1]:a[2]]
+        return exp(a)
+
     progs = [[res_i(v) for v in pr] for pr in case["children"]]
     parent_prog = [res_i(v) for v in case["parent_prog"]] if case.get("parent_prog") else None
     grand = None
     if case.get("grand") and progs:
         gi = case["grand"][0] % len(progs)
-        grand = (gi, [key(res_i(v)) for v in case["grand"][1]])
+        grand = (gi, [key_of(res_i(v)) for v in case["grand"][1]])
+    if any(isinstance(a, list) for pr in progs + ([parent_prog] if parent_prog else []) for a in pr):
+        ctx.label("iteration-or-slice-in-forked-process")
     use_probe = kind in ("buffered", "map-dict", "map-index") and parent_prog is None and grand is None
 
     def make():
@@ -127,18 +148,18 @@ def run_case(case, ctx):
         return o
 
     try:
-        res, after, trace = xproc.run(make_with_dup if use_probe else make, [[key(i) for i in pr] for pr in progs], case["schedule"],
-                                      [key(i) for i in parent_prog] if parent_prog is not None else None,
+        res, after, trace = xproc.run(make_with_dup if use_probe else make, [[key_of(i) for i in pr] for pr in progs], case["schedule"],
+                                      [key_of(i) for i in parent_prog] if parent_prog is not None else None,
                                       parent_first_key=key(0) if case.get("parent_first") else None, grand=grand,
                                       probe=fd_probe if use_probe else None)
     except Inconclusive:
         raise
     name = {"buffered": "RandomLineAccessFile", "mmap": "MemoryMappedRandomLineAccessFile"}.get(kind, "MapAccessFile")
-    expected = [[exp(i) for i in pr] for pr in progs]
+    expected = [[exp_of(i) for i in pr] for pr in progs]
     if grand is not None:
-        expected.append([exp(res_i(v)) for v in case["grand"][1]])
+        expected.append([exp_of(res_i(v)) for v in case["grand"][1]])
     if parent_prog is not None:
-        expected.append([exp(i) for i in parent_prog])
+        expected.append([exp_of(i) for i in parent_prog])
     who = ["child %d" % i for i in range(len(progs))] + (["grandchild"] if grand is not None else []) + (["parent"] if parent_prog is not None else [])
     for w, got, e in zip(who, res, expected):
         probe = [x for x in got if isinstance(x, dict)]
@@ -187,7 +208,7 @@ def short(x):
 
 def strategies(tier):
     big = tier == "thorough"
-    prog = st.lists(st.integers(0, 3000), min_size=1, max_size=6)
+    prog = st.lists(st.one_of(st.integers(0, 3000), st.integers(0, 3000), st.integers(-3000, -1)), min_size=1, max_size=6)
     case = st.fixed_dictionaries({
         "cls": st.sampled_from(["buffered", "buffered", "mmap", "map-dict", "map-index"]),
         "size": st.sampled_from(["small", "40k", "200k", "200k"]),
